@@ -1,5 +1,5 @@
 (* Run.v -- scenario dispatcher of the extracted model: sx -> sx. *)
-From LNN Require Import Num Neuron Node Sx Grad PropEngine PropRun Registry.
+From LNN Require Import Num Neuron Node Sx Grad PropEngine PropRun Registry Fol FolRun.
 Open Scope Z_scope.
 
 Definition dwhich (s : sx) : which :=
@@ -71,5 +71,6 @@ Definition run_base (tag : Z) (args : list sx) : option sx :=
   | 4 => Some (run_k4 args)
   | 8 => Some (run_k8 args)
   | 30 => Some (run_k30 args)
+  | 40 => Some (run_k40 args)
   | _ => None
   end.
